@@ -483,7 +483,11 @@ impl Expression {
                 PathAnalysisState::NotInPath
             }
             Expression::LitFloat { value: x, .. } => {
-                write!(value, "{}", x)?;
+                if x.is_finite() {
+                    write!(value, "{}", x)?;
+                } else {
+                    write!(value, "Infinity")?;
+                }
                 PathAnalysisState::NotInPath
             }
             Expression::LitBool { value: x, .. } => {
